@@ -54,6 +54,44 @@ type FileRule struct {
 type AddRule struct {
 	Path    string `json:"path"`    // destination inside the repo
 	Content string `json:"content"` // file in the rules directory
+	// The added file refers to an unexported function of the package. If that
+	// function does not exist any more (or has another arity) the file is not
+	// added and MissingTag is handed to the build instead, so that the harness
+	// compiles without the scenario that needs it.
+	NeedsFile    string `json:"needs_file"`
+	NeedsFunc    string `json:"needs_func"`
+	NeedsParams  int    `json:"needs_params"`
+	NeedsResults int    `json:"needs_results"`
+	MissingTag   string `json:"missing_tag"`
+}
+
+func hasFunc(path, name string, nparams, nresults int) bool {
+	f, err := parser.ParseFile(token.NewFileSet(), path, nil, 0)
+	if err != nil {
+		return false
+	}
+	for _, d := range f.Decls {
+		fd, ok := d.(*ast.FuncDecl)
+		if !ok || fd.Recv != nil || fd.Name.Name != name {
+			continue
+		}
+		count := func(fl *ast.FieldList) int {
+			n := 0
+			if fl == nil {
+				return 0
+			}
+			for _, f := range fl.List {
+				if len(f.Names) == 0 {
+					n++
+				} else {
+					n += len(f.Names)
+				}
+			}
+			return n
+		}
+		return count(fd.Type.Params) == nparams && count(fd.Type.Results) == nresults
+	}
+	return false
 }
 
 type PropRules struct {
@@ -105,7 +143,13 @@ func main() {
 		overlay[src] = dst
 		digest.Write(b)
 	}
+	var tags []string
 	for i, ar := range rules.Add {
+		if ar.NeedsFunc != "" && !hasFunc(filepath.Join(*repo, ar.NeedsFile), ar.NeedsFunc, ar.NeedsParams, ar.NeedsResults) {
+			fmt.Fprintf(os.Stderr, "weave: note: %s no longer has func %s with %d params/%d results; building with tag %s\n", ar.NeedsFile, ar.NeedsFunc, ar.NeedsParams, ar.NeedsResults, ar.MissingTag)
+			tags = append(tags, ar.MissingTag)
+			continue
+		}
 		b, err := os.ReadFile(filepath.Join(filepath.Dir(*rulesPath), ar.Content))
 		if err != nil {
 			fail("%v", err)
@@ -122,6 +166,7 @@ func main() {
 		fail("%v", err)
 	}
 	_ = os.WriteFile(filepath.Join(*out, "weave_digest"), []byte(hex.EncodeToString(digest.Sum(nil))), 0o644)
+	_ = os.WriteFile(filepath.Join(*out, "tags"), []byte(strings.Join(tags, ",")), 0o644)
 }
 
 type weaver struct {
